@@ -29,4 +29,15 @@ Section CloneArchive.
 
   (* the honest reader: payloads are the stored byte ranges of the archive file *)
   Definition file_payload (f : list N) (d : adesc) : list N := slice f (ad_offset d) (ad_offset d + ad_size d).
+  (* File::set_len: truncate or extend with zeros (regular files, after the clone) *)
+  Definition set_len (n : N) (f : list N) : list N := takeN n f ++ repeat 0 (N.to_nat (n - lenN f)).
+
+  (* open + clone + resize, as the command does for a regular file without seeds: the whole reader side *)
+  Definition open_and_clone (f : list N) : outcome (list N) :=
+    do a <- try_init H (file_read_at f);
+    do r <- archive_clone a (file_payload f) [] None [];
+    match o_err (cr_state r) with
+    | Some e => Err e
+    | None => Ok (set_len (a_total a) (o_file (cr_state r)))
+    end.
 End CloneArchive.
